@@ -93,6 +93,14 @@ def extents_in(val):
 PROBE_RE = re.compile(r"(\|probe:|\]\?)([A-Za-z0-9_@():-]+)")
 
 
+def eqpad_violation(impl):
+    m = re.search(r"eqpad=([a-z0-9_,]+);", impl)
+    if m:
+        return ("`==` on the typed view(s) %s tells two regions apart that differ only in the alignment padding behind the declared "
+                "tag size: bytes outside the tag's declared extent are exposed" % m.group(1))
+    return None
+
+
 def probe_violation(impl):
     """the harness cross-checks every iterator against the other routes through the Iterator protocol (nth, skip, count, last,
     step_by, size_hint, clones); a disagreement with plain next()-draining is reported in place of the end marker"""
@@ -106,7 +114,10 @@ def c01_oracle(case, impl):
     """no crash; every handed-out reference lies inside the tag it came from (and inside the declared region)"""
     if impl.startswith("crash") or impl == "harness-panic":
         return "the process crashed / the harness lost control"
-    pv = probe_violation(impl)
+    ev = eqpad_violation(impl)
+    if ev:
+        return ev
+    pv = probe_violation(impl) or eqpad_violation(impl)
     if pv:
         return pv
     region = region_of(case)
@@ -221,7 +232,7 @@ def c05_oracle(case, impl):
 
 
 def c18_oracle(case, impl):
-    pv = probe_violation(impl)
+    pv = probe_violation(impl) or eqpad_violation(impl)
     if pv:
         return pv
     region = region_of(case)
@@ -276,7 +287,7 @@ def elf_class(v):
 
 
 def c19_oracle(case, impl):
-    pv = probe_violation(impl)
+    pv = probe_violation(impl) or eqpad_violation(impl)
     if pv:
         return pv
     region = region_of(case)
@@ -324,6 +335,56 @@ def c19_oracle(case, impl):
     if got != exp:
         return "ELF iteration differs from the specification: got %s expected %s" % (got[:160], exp[:160])
     return c19_deprecated(secs, n, es, shndx, size, exp)
+
+
+def c19_name_oracle(case, impl):
+    """ELFNAME: for a table that fits (entry size 40/64, count x size and the string-table header inside the tag) every
+    in-use section's name is the NUL-terminated byte string at (name index) inside the designated string table
+    (the harness zero-pads it); independent of the model."""
+    t = case.split()
+    es, n, shndx = int(t[1]), int(t[2]), int(t[3])
+    ents = bytes.fromhex(t[4]) if len(t) > 4 and t[4] != "-" else b""
+    strtab = (bytes.fromhex(t[5]) if len(t) > 5 and t[5] != "-" else b"") + b"\0" * 64
+    L = len(ents)
+    if es not in (40, 64) or n * es > L or (n and (shndx + 1) * es > L):
+        return None
+    exp = "["
+    for i in range(n):
+        e = i * es
+        if le(ents, e + 4, 4) == 0:
+            continue
+        idx = le(ents, e, 4)
+        if idx >= len(strtab) - 1:
+            return None
+        end = strtab.index(b"\0", idx)
+        nm = strtab[idx:end]
+        exp += ("s:%s|" % (nm.hex() if nm else "-")) if valid_utf8(nm) else "e:Utf8|"
+    exp += "]."
+    if impl != exp:
+        return "section names do not resolve through the designated string table: got %s expected %s" % (impl[:160], exp[:160])
+    return None
+
+
+def c03_modules_oracle(case, impl):
+    """SWEEP: the module iterator yields exactly the module tags of the specification's walk, in order (any loaded
+    region whose walk ends at the end of the region and whose module tags carry at least their 16 fixed bytes)"""
+    region = region_of(case)
+    secs = sections(impl)
+    if not load_ok(region) or not secs.get("ld", "").startswith("ok"):
+        return None
+    walk, wend = spec_walk(region)
+    if wend != "done":
+        return None
+    mods = [o for (o, t, s) in walk if t == 3]
+    if any(s < 16 for (o, t, s) in walk if t == 3):
+        return None
+    val = secs.get("modules")
+    if val is None:
+        return None
+    got = [int(x) for x in re.findall(r"@(\d+):\d+\{start=", val)]
+    if got != mods or not val.endswith("]."):
+        return "module iterator: got tags at %s (%s), the walk has module tags at %s" % (got[:8], val[-3:], mods[:8])
+    return None
 
 
 def c19_deprecated(secs, n, es, shndx, size, exp):
